@@ -465,7 +465,7 @@ def line_section(tier, seed):
                      'three scenarios (directly / lazily by name / by predicate registered and unregistered classes; lazily registered stdlib types; the dataclasses, '
                      'attrs and ipython_repr_pretty extras) thread 1 is suspended at package line k (%s), thread 2 prints completely, thread 1 resumes; plus sampled '
                      'two-pre-emption schedules (thread 2 suspended at its line j while thread 1 finishes); every schedule forks from a state in which nothing has been '
-                     'printed; both texts must equal a sequential result and nobody may raise' % ('160 sampled k per pair' if tier == 'quick' else 'every k')}
+                     'printed; both texts must equal a sequential result and nobody may raise' % ('160 sampled k per pair (every k for designated pairs)' if tier == 'quick' else 'every k (3000 sampled for values with more than 6000 package lines)')}
     return stats, [], fails
 
 
